@@ -10,7 +10,7 @@ def sh(cmd, cwd=None, env=None, timeout=3600):
     return p.returncode, p.stdout
 def srcdir(P, X):
     if P.startswith("R"): return "/tmp/mut/%s/out/%s" % (P, X)
-    return "/tmp/mut/%s/%s/%s" % (P, {"a": "out", "b": "out", "c": "out2", "d": "out2", "e": "out3", "f": "out3", "g": "out4", "h": "out4"}.get(X, "out4"), X)
+    return "/tmp/mut/%s/%s/%s" % (P, {"a": "out", "b": "out", "c": "out2", "d": "out2", "e": "out3", "f": "out3", "g": "out4", "h": "out4", "i": "out5", "j": "out5"}.get(X, "out4"), X)
 def worker(k, q, lock):
     wt = "/tmp/pm/w%d" % k
     sh("git -C /repo worktree remove --force %s; rm -rf %s; git -C /repo worktree add -q --detach %s HEAD" % (wt, wt, wt))
